@@ -83,6 +83,13 @@ def run(tier):
     for f in flag_ad:
         if f not in spec:
             rep.unprovable("C13.spec|%s" % f, "feature flag %s is not in the reference table" % f)
+    # the other direction: a feature the reference table knows as missing on some cores must have a flag, or no device can be without it
+    for f in sorted(spec):
+        removes = spec[f].get("ops") or spec[f].get("forms")
+        if f not in flag_ad and removes:
+            rep.ob("C13.spec-flag|%s" % f, False,
+                   "the reference table has the feature %s (removes %s on the cores that lack it), DisabledOptions has no such flag: the instruction "
+                   "or form is accepted for every device" % (f, removes))
     allflags = sorted(set(flag_ad) & set(spec))
     nops = 0
     for v in opad["variants"]:
